@@ -15,20 +15,7 @@ def GoneAnswer (pid : Nat) (nm : String) (out : Except PyExc Val) : Prop :=
 instance (pid : Nat) (nm : String) (out : Except PyExc Val) : Decidable (GoneAnswer pid nm out) := by
   unfold GoneAnswer; split
   · exact (match out with
-      | .ok (.bool false) => isTrue rfl
-      | .ok (.bool true) => isFalse (by intro h; cases h)
-      | .ok .none => isFalse (by intro h; cases h)
-      | .ok .int => isFalse (by intro h; cases h)
-      | .ok .float => isFalse (by intro h; cases h)
-      | .ok .str => isFalse (by intro h; cases h)
-      | .ok .estr => isFalse (by intro h; cases h)
-      | .ok (.tuple _) => isFalse (by intro h; cases h)
-      | .ok (.list _) => isFalse (by intro h; cases h)
-      | .ok .dict => isFalse (by intro h; cases h)
-      | .ok (.proc _) => isFalse (by intro h; cases h)
-      | .ok (.procs _) => isFalse (by intro h; cases h)
-      | .ok (.asdict _ _) => isFalse (by intro h; cases h)
-      | .ok (.iter _) => isFalse (by intro h; cases h)
+      | .ok v => if h : v = .bool false then isTrue (by rw [h]) else isFalse (by intro h'; cases h'; exact h rfl)
       | .error _ => isFalse (by intro h; cases h))
   · infer_instance
 
